@@ -70,4 +70,10 @@ def _c09():
     return {"builders": [sk.build], "level": "proof", "explanation": "scope/call stack pairing lemmas and RAII guard lemmas"}
 
 
-PROPS = {"C09": _c09, "C07": _c07, "C06": _c06, "C20": _c20, "C01": _c01, "C05": _c05}
+def _c19():
+    import loader as lk
+    return {"builders": [lk.build], "level": "other", "explanation": "file loader: content = bytes minus one leading BOM",
+            "replay_fn": lk.replay_fn, "replay_file_fn": lk.replay_file}
+
+
+PROPS = {"C19": _c19, "C09": _c09, "C07": _c07, "C06": _c06, "C20": _c20, "C01": _c01, "C05": _c05}
